@@ -130,7 +130,7 @@ def module_add(rng, variants=VARIANTS, arches=None, invalid=0.25, memo=None):
             parts = uid0.split(":")
         else:
             memo.append((v0, a0, uid0))
-    op = {"op": "add", "variant": v0, "arch": a0, "uid": uid0,
+    op = {"op": "add", "variant": v0, "arch": a0, "uid": (uid0 if rng.random() < 0.88 else pick(rng, ["%s/%s/" % (v0, a0), "modules/", "./"]) + uid0),
           "koji_tag": pick(rng, ["module-%s-%s" % (parts[0], parts[1]), "tag-1"]),
           "modulemd_path": "%s/%s/os/repodata/modules.yaml.gz" % (pick(rng, variants), pick(rng, arches)),
           "category": pick(rng, ["binary", "debug", "source"]),
